@@ -167,6 +167,30 @@ def rule_prefix_walk(ctx, chk, f, S, B):
                 ok = True
         if not ok and bad is None:
             bad = conds
+    # an empty reference path inherits the query of the base (RFC 3986 5.2.2): stepping over the LAST segment of the source
+    # (which can leave the path empty) needs "the source has a query of its own, or the base has none"
+    def established(conds):
+        for k, truth, loc in conds:
+            m = re.match(r'^\(?%s->next (==|!=) %s\)?$' % (re.escape(sw), NUL), k)
+            if m and ((m.group(1) == '==') != truth):
+                return True                                   # not the last segment of the source
+            m = re.match(r'^\(?%s->query\.first (==|!=) %s\)?$' % (re.escape(S), NUL), k)
+            if m and ((m.group(1) == '==') != truth):
+                return True                                   # the source has a query
+            m = re.match(r'^\(?%s->query\.first (==|!=) %s\)?$' % (re.escape(B), NUL), k)
+            if m and ((m.group(1) == '==') == truth):
+                return True                                   # the base has none
+        return False
+    badq = None
+    for conds in paths:
+        if not established(conds) and badq is None:
+            badq = conds
+    chk.add('prefix-walk', 'prefix-walk-query:%s' % (f.name if badq is None else base_name(f.name)), badq is None, body.loc or f.loc,
+            '%s: %s' % (f.name, 'the last segment of the source is stepped over only if the source has a query or the base has none'
+                        if badq is None else 'the walk can step over the last segment of the source (leaving an empty reference path, which '
+                        'inherits the query of the base) without having established that the source has a query of its own or that the '
+                        'base has none: source s://h/a/b against base s://h/a/b?q yields the empty reference, which resolves to '
+                        's://h/a/b?q'), func=f.name)
     key = 'prefix-walk:%s' % (f.name if bad is None else base_name(f.name))
     chk.add('prefix-walk', key, bad is None, body.loc or f.loc,
             '%s: %d paths lead into the block that steps over a common segment; %s' % (
@@ -200,7 +224,8 @@ def run(ctx, chk):
     chk.rule('naked-guard', 'while the produced relative path is still empty, a first segment that is empty or contains ":" is '
              'preceded by a "." segment; domain-root mode passes through the ambiguity guard', floor=4)
     chk.rule('prefix-walk', 'the common-prefix walk steps over a pair of equal segments only if it is the last segment of both paths '
-             'or of neither (the last segment of a path is not a directory)', floor=2)
+             'or of neither (the last segment of a path is not a directory), and over the last segment of the source only if the query '
+             'of the base may be inherited', floor=4)
     from .c11 import _compare_range
     chk.rule('compare-range', 'uriCompareRange (which decides "same scheme", user info, port and host text here): NULL equals only NULL, '
              'lengths compared, texts compared over the full length in characters', floor=8)
